@@ -8,7 +8,7 @@ Definition html_select (tag ty : bytes) : option bytes :=
   if beqb tag n_iframe then Some mt_html
   else if beqb tag n_script || beqb tag n_style then
     match ty with
-    | _ :: _ => Some (fst (fst (mediatype ty)))
+    | _ :: _ => Some (map to_lower (fst (fst (mediatype ty))))      (* parse.ToLower: media types are case-insensitive *)
     | [] => raw_mimetype tag
     end
   else None.
@@ -22,9 +22,23 @@ Proof.
   - destruct (beqb tag n_script); [reflexivity|]. destruct (beqb tag n_style); reflexivity.
 Qed.
 
-(* "chosen from the type attribute" is NOT case-insensitive in the current code, although the type attribute is dropped
-   as a default by a case-insensitive test: <style type="Text/CSS"> is dispatched on "Text/CSS" (finding K103) *)
-Example html_select_case_refuted :
-  html_select n_style [84;101;120;116;47;67;83;83] = Some [84;101;120;116;47;67;83;83] /\
+(* dispatch does not depend on the case of the media type (K103, repaired): the selected type is always lower case *)
+Lemma map_to_lower_idem : forall b, map to_lower (map to_lower b) = map to_lower b.
+Proof.
+  induction b as [|c r IH]; [reflexivity|]. cbn [map]. rewrite IH. f_equal.
+  unfold to_lower, is_upper.
+  destruct ((65 <=? c) && (c <=? 90)) eqn:E; [|rewrite E; reflexivity].
+  apply andb_true_iff in E as [E1 E2]. apply Z.leb_le in E1. apply Z.leb_le in E2.
+  replace ((65 <=? c + 32) && (c + 32 <=? 90)) with false; [reflexivity|].
+  symmetry. apply andb_false_iff. right. apply Z.leb_gt. lia.
+Qed.
+Theorem html_select_lower_case : forall tag ty mt, ty <> [] -> (beqb tag n_script || beqb tag n_style = true) -> beqb tag n_iframe = false ->
+  html_select tag ty = Some mt -> map to_lower mt = mt.
+Proof.
+  intros tag ty mt Hty Htag Hif H. unfold html_select in H. rewrite Hif, Htag in H.
+  destruct ty as [|c r]; [contradiction Hty; reflexivity|]. injection H as <-. apply map_to_lower_idem.
+Qed.
+Example html_select_case_examples :
+  html_select n_style [84;101;120;116;47;67;83;83] = Some mt_css /\
   html_select n_style [116;101;120;116;47;99;115;115] = Some mt_css.
 Proof. vm_compute. split; reflexivity. Qed.
